@@ -1,16 +1,22 @@
 pub mod c01;
+pub mod c07;
 pub mod c10;
 pub mod c11;
 pub mod c12;
+pub mod c13;
+pub mod c24;
 
 use crate::engine::Engine;
 
 pub fn dispatch(id: &str) -> Option<fn(&mut Engine)> {
     match id {
         "C01" => Some(c01::run),
+        "C07" => Some(c07::run),
         "C10" => Some(c10::run),
         "C11" => Some(c11::run),
         "C12" => Some(c12::run),
+        "C13" => Some(c13::run),
+        "C24" => Some(c24::run),
         _ => None,
     }
 }
